@@ -14,7 +14,7 @@ class FunctionAgent:
     -1 for endOfMibView; ``requestable`` = roots + universe."""
 
     def __init__(self, roots, universe, table, cap, community=b"public",
-                 stop_all_eom=True, empty_at=(), error_at=None):
+                 stop_all_eom=True, empty_at=(), error_at=None, values=None):
         self.roots = [tuple(r) for r in roots]
         self.universe = [tuple(u) for u in universe]
         self.requestable = self.roots + self.universe
@@ -26,6 +26,10 @@ class FunctionAgent:
         self.empty_sent = 0
         self.error_at = dict(error_at or {})   # request number -> (error-status, error-index)
         self.errors_sent = 0
+        # what each universe OID is bound to when the agent returns it: 0 INTEGER 1 (default), 1 noSuchObject,
+        # 2 noSuchInstance, 3 OCTET STRING, 4 NULL
+        self.values = list(values or [])
+        self.markers_sent = 0
         self.requests = []       # (pdu tag, [oid tuples])
         self.revealed = set()    # OIDs the agent ever returned
         self.unknown_requested = []
@@ -39,6 +43,17 @@ class FunctionAgent:
         row = self.table[q]
         t = row[rep % len(row)]
         return None if t < 0 else self.universe[t]
+
+    def value_of(self, oid, default):
+        if not self.values:
+            return default
+        try:
+            k = self.values[self.universe.index(tuple(oid)) % len(self.values)]
+        except ValueError:
+            return default
+        if k in (1, 2):
+            self.markers_sent += 1
+        return {1: vagent.NSO, 2: vagent.NSI, 3: (vber.T_OCTETS, b"x"), 4: (vber.T_NULL, b"")}.get(k, default)
 
     async def __call__(self, endpoint, data, timeout=None, retries=None, loop=None):
         if len(self.requests) >= self.cap:
@@ -70,7 +85,7 @@ class FunctionAgent:
                     out.append((o,) + vagent.EOM)
                 else:
                     self.revealed.add(y)
-                    out.append((y,) + val)
+                    out.append((y,) + self.value_of(y, val))
         elif pdu["tag"] == vber.PDU_GETBULK:
             n, m = pdu["f1"], pdu["f2"]
             if n != 0:
@@ -86,7 +101,7 @@ class FunctionAgent:
                     else:
                         self.revealed.add(y)
                         cur[i] = y
-                        out.append((y,) + val)
+                        out.append((y,) + self.value_of(y, val))
                 if all(dead) and self.stop_all_eom:
                     break
         else:
